@@ -8,6 +8,8 @@
 (*   fresh   the result (value or raised parse error) equals the result of   *)
 (*           the same call in a fresh interpreter                            *)
 (*   live    number of per-call library objects still alive after the call   *)
+(*   tables  every module-level table of the library (dict / list / set of   *)
+(*           an emmet module) still equals its value at import time          *)
 (* The spec performs the call with Session's own actions (internal steps are *)
 (* not observable and are taken silently between two logged events) and the  *)
 (* logged observation must equal the state the spec arrives in.              *)
@@ -26,6 +28,7 @@ Judge(e) == IF \E c \in Objs : e.texts[c] # userText'[c] THEN "caller-config"
             ELSE IF ~e.same THEN "caller-config"
             ELSE IF ~e.fresh THEN "result-pure"
             ELSE IF results'[Len(results')].res # Pure(e.c, e.ab) THEN "result-pure"
+            ELSE IF ~e.tables THEN "library-table-modified"
             ELSE IF e.live # live' THEN "retention"
             ELSE "ok"
 
